@@ -57,10 +57,12 @@ Perms(S) == { q \in [1..Cardinality(S) -> S] : Range(q) = S }
 \* injective sequences of length k over S
 InjSeqs(S, k) == { q \in [1..k -> S] : \A i, j \in 1..k : i # j => q[i] # q[j] }
 
-InitNode(n, self, order) ==
+\* hb0: what a detector knows before the first heartbeat - NoHb as the code is; with the deviation
+\* "phi_zero_before_first_heartbeat" off, the instant start() was called (monitoring begins there)
+InitNode(n, self, order, hb0) ==
     [view |-> [m \in 1..n |-> IF m = self THEN "-" ELSE "A"],
      inc |-> [m \in 1..n |-> 0],
-     hb |-> [m \in 1..n |-> NoHb],
+     hb |-> [m \in 1..n |-> IF m = self THEN NoHb ELSE hb0],
      pend |-> [m \in 1..n |-> NoPend],
      ups |-> <<>>, order |-> order, idx |-> 0]
 
